@@ -648,26 +648,29 @@ def run(prop, tier, seed, repo, known_p):
                 samples=samples, rule="; ".join(f"{r.name}: {r.bound}" for r in reps), exhaustive=False)
 
 
-def replay_known(k, repo):
-    """True if the recorded witness still misbehaves on the real code."""
-    w = k.get("witness", {})
+def replay_known(known_list, repo):
+    """-> {finding_id: True if the recorded witness still misbehaves on the real code}"""
+    out = {}
+    if not known_list:
+        return out
     try:
         rac = Rac(repo)
     except HarnessError:
-        return True
+        return {k["finding_id"]: True for k in known_list}
     try:
-        if "query" in w:
-            st = single_value(rac.query(w["query"]))
-            got = str(st[1]) if st[0] in ("ok", "err") else st[0]
-            if st[0] == "ok" and st[2].get("unit_str"):
-                got = f"{st[1]} {st[2]['unit_str']}"
-            return got == w.get("actual")
-        if "cmd" in w:
-            ans = rac.ask(w["cmd"])
-            return json.dumps(ans, sort_keys=True) == json.dumps(w.get("actual_answer"), sort_keys=True) if "actual_answer" in w else True
-        return True
+        for k in known_list:
+            w = k.get("witness", {})
+            if "query" in w:
+                st = single_value(rac.query(w["query"]))
+                got = str(st[1]) if st[0] in ("ok", "err") else st[0]
+                if st[0] == "ok" and st[2].get("unit_str"):
+                    got = f"{st[1]} {st[2]['unit_str']}"
+                out[k["finding_id"]] = (got == w.get("actual"))
+            else:
+                out[k["finding_id"]] = True
     finally:
         rac.close()
+    return out
 
 
 def replay(prop, path, repo):
